@@ -1,6 +1,81 @@
-"""Kani units (filled in later)."""
+"""Kani units: fixed-size byte-level leaf functions, extracted UNCHANGED from /repo on every run
+into a small harness crate (kani/<crate>/), checked by `cargo kani` (CBMC).  A harness over a
+fully symbolic fixed-size input with an unwinding bound above the size (unwinding assertions on)
+is a complete proof at that size; anything smaller than the real size is labelled bounded."""
+import os
+import re
+import shutil
+import subprocess
+import time
+
 import vdrv
 
 
 def kani_unit(prop, unit, tier, seed, workdir):
-    raise vdrv.ToolFailure("kani units not implemented yet")
+    src_crate = os.path.join(vdrv.VERIF, "kani", unit["crate"])
+    dst = os.path.join(workdir, "kani_" + unit["crate"])
+    if os.path.exists(dst):
+        shutil.rmtree(dst)
+    shutil.copytree(src_crate, dst, ignore=shutil.ignore_patterns("target"))
+    # extraction of the original item text
+    cmd = [vdrv.EXTRACTOR, "--repo", vdrv.REPO, "--out", os.path.join(dst, "src", "extracted.rs")]
+    for sel in unit["raw"]:
+        cmd += ["--raw", sel]
+    r = vdrv.sh(cmd)
+    if r.returncode != 0:
+        raise vdrv.ToolFailure("kani extraction failed: " + r.stderr.strip())
+    ex = os.path.join(dst, "src", "extracted.rs")
+    txt = open(ex).read()
+    open(ex, "w").write(unit.get("prepend", "") + "\n" + txt)
+    harnesses = unit["harnesses"]          # name -> {obligation, complete: bool, note}
+    env = dict(os.environ, CARGO_NET_OFFLINE="true", CARGO_TARGET_DIR=os.path.join(vdrv.BUILD, "kani-target-" + unit["crate"]))
+    cmdk = ["cargo", "kani"] + unit.get("kani_args", [])
+    for h in harnesses:
+        cmdk += ["--harness", h]
+    t0 = time.time()
+    try:
+        kr = subprocess.run(cmdk, cwd=dst, env=env, stdout=subprocess.PIPE, stderr=subprocess.STDOUT, text=True, timeout=unit.get("timeout", 1500))
+    except subprocess.TimeoutExpired:
+        raise vdrv.ToolFailure("cargo kani timed out")
+    wall = time.time() - t0
+    out = kr.stdout
+    # split per harness
+    secs = re.split(r"^Checking harness ", out, flags=re.M)
+    res = {}
+    for sec in secs[1:]:
+        name = sec.split("...")[0].strip().split("::")[-1]
+        m = re.search(r"\*\* (\d+) of (\d+) failed", sec)
+        ok = "VERIFICATION:- SUCCESSFUL" in sec
+        failed_checks = re.findall(r"^Failed Checks: (.*)\n File: \"(.*?)\", line (\d+), in (.*)$", sec, flags=re.M)
+        unwind_fail = bool(re.search(r"Failed Checks: unwinding assertion", sec))
+        res[name] = {"ok": ok, "failed": int(m.group(1)) if m else None, "total": int(m.group(2)) if m else 0,
+                     "failed_checks": failed_checks, "unwind_fail": unwind_fail, "text": sec[-3000:]}
+    missing = [h for h in harnesses if h not in res]
+    if missing:
+        raise vdrv.ToolFailure("kani produced no result for harness(es) %s; output tail:\n%s" % (missing, out[-3000:]))
+    failures = []
+    obligations = 0
+    discharged = 0
+    samples = []
+    for h, info in harnesses.items():
+        r_ = res[h]
+        obligations += r_["total"]
+        if r_["unwind_fail"]:
+            raise vdrv.ToolFailure("unwinding assertion failed in %s: the stated bound is too small (tool failure, not a violation)" % h)
+        if r_["ok"]:
+            discharged += r_["total"]
+            if len(samples) < 3:
+                samples.append({"obligation": "kani:%s — %s" % (h, info["obligation"]), "checks": r_["total"], "backend": "kani/cbmc", "complete_at_real_size": info.get("complete", True)})
+        else:
+            discharged += r_["total"] - (r_["failed"] or 1)
+            fc = r_["failed_checks"]
+            msg = "; ".join("%s (%s:%s)" % (c[0], c[1], c[2]) for c in fc) or "assertion failed"
+            kind = fc[0][0].strip().replace(" ", "_") if fc else "assertion_failed"
+            failures.append({"id": "kani:%s#%s" % (info.get("group", h), kind), "message": "%s: %s" % (info["obligation"], msg),
+                             "function": info.get("function", ""), "repo_location": info.get("repo_location", ""),
+                             "verifier_output": r_["text"], "unit": unit["name"], "backend": "kani", "harness": h})
+    return {"unit": unit["name"], "backend": "kani", "kind": "semantic" if failures else "ok", "failures": failures,
+            "obligations": obligations, "discharged": discharged, "harnesses": list(harnesses), "wall_s": round(wall, 2),
+            "cmd": "cd %s && CARGO_NET_OFFLINE=true %s" % (dst, " ".join(cmdk)), "samples": samples,
+            "bounded": [h for h, i in harnesses.items() if not i.get("complete", True)],
+            "bound_note": unit.get("bound_note", ""), "trusted": unit.get("trusted", [])}
